@@ -199,6 +199,16 @@ impl Monitor for C05 {
             return;
         }
         k -= self.n_tiny;
+        if k == 1 || k == 3 || k == 5 {
+            // scale: plaintext of several MiB up to beyond 128 MiB
+            let mut r = Rng::derive(self.seed, 0x0507, k, 0);
+            if let Some(st) = streams::scale_stream(&mut r, (k - 1) / 2) {
+                ctx.count("cases:scale");
+                ctx.count(&format!("scale:plaintext_{}MiB", st.plain.len() >> 20));
+                self.judge_sampled(&st.bytes, &st.recipe, ctx);
+            }
+            return;
+        }
         if k < self.n_hdr {
             let mut r = Rng::derive(self.seed, 0x0501, k, 0);
             for _ in 0..50 {
